@@ -27,11 +27,27 @@ class Scenario(apiworld.ApiWorld):
         self.nreq = 0
         self.auto_versions = 1 if params.get("mode", "api") == "api" else 0   # the handshake's own request
         self.auto_versions = 0 if params.get("mode", "api") == "bare" else 1
+        if params.get("mode") == "api-second-life":
+            self.auto_versions = 99         # the first life is served without interference
         if params.get("mode", "api") == "api":
             r = self.init_now(horizon=0.0)
             assert r and r[1] is True, f"init failed: {r}"
             self.loop.settle()
             self.mon_start = self.loop.time()
+        elif params.get("mode") == "api-second-life":
+            # the application has used this client before: init(), 100 s of service, shutdown(), and init() again.  The
+            # second life is monitored exactly like a first one, counted from ITS start
+            r = self.init_now(horizon=0.0)
+            assert r and r[1] is True, f"init failed: {r}"
+            self.loop.run_until(100.0)
+            self.spawn(self.at.shutdown())
+            self.loop.run_until(101.0)
+            self.init_result.clear()
+            self.auto_versions = 1          # the second handshake's own request; from then on the environment decides
+            r = self.init_now(horizon=1.0)
+            assert r and r[1] is True, f"second init failed: {r}"
+            self.loop.settle()
+            self.mon_start = r[2]           # the instant the second init() returned
         elif params.get("mode") == "api-late":
             # the console is unreachable when init() is called: init() gives up after 5 s and returns False,
             # the socket keeps trying, the console comes up at 6.5 s and the handshake completes on its own -
@@ -357,12 +373,12 @@ def run(tier, seed, part=None):
     # (mode, (interval, timeout), heartbeats, side events allowed, max deviations)
     if tier == "quick":
         plans = [("api", (300.0, 330.0), 2, 0, 0), ("api", (300.0, 330.0), 1, {"noise": 1}, 0), ("bare", (10.0, 15.0), 2, 0, 0), ("bare", (10.0, 10.5), 1, {"eof": 1, "unsolicited": 1}, 0), ("bare", (10.0, 15.0), 1, {"outage": 1}, 0),
-                 ("bare", (10.0, 10.5), 2, 0, 0), ("api-late", (300.0, 330.0), 1, 0, 0)]
+                 ("bare", (10.0, 10.5), 2, 0, 0), ("api-late", (300.0, 330.0), 1, 0, 0), ("api-second-life", (300.0, 330.0), 2, 0, 0)]
         cap = 40
     else:
         plans = [("api", (300.0, 330.0), 3, 1, 0), ("api", (300.0, 330.0), 2, 1, 1), ("bare", (10.0, 15.0), 4, 0, 0),
                  ("bare", (10.0, 15.0), 3, 1, 0), ("bare", (10.0, 10.5), 3, 1, 0), ("bare", (300.0, 330.0), 3, 0, 0),
-                 ("bare", (10.0, 15.0), 2, {"outage": 1, "eof": 1}, 0), ("api", (300.0, 330.0), 1, {"outage": 1}, 0), ("api-late", (300.0, 330.0), 2, 1, 0)]
+                 ("bare", (10.0, 15.0), 2, {"outage": 1, "eof": 1}, 0), ("api", (300.0, 330.0), 1, {"outage": 1}, 0), ("api-late", (300.0, 330.0), 2, 1, 0), ("api-second-life", (300.0, 330.0), 2, 1, 0)]
         cap = 150
     for gen in (4, 5):
         for mode, cfg, beats, side, dev in plans:
